@@ -160,6 +160,21 @@ PROPS = {
              "before and between comparisons, clones; non-trivial = an observer call separates two comparisons",
         nontrivial=lambda p: True,
     ),
+    "C19": dict(
+        gens=[tlc("c16"), tlc("c01"), rand("ropes", 1000, "quick"), rand("wild", 400, "quick"), rand("stream_any", 300, "quick"),
+              rand("ropes", 60000, "thorough"), rand("wild", 30000, "thorough"), rand("stream_any", 20000, "thorough")],
+        tv_props=["C19"],
+        must_fire=["C19.preconditions_hold", "C19.rope.slice.same_piece", "C19.rope.slice.pieces",
+                   "C19.with_indices.substring", "C19.str.byte_slice_unchecked", "C19.encoder.full.drain",
+                   "C19.encoder.lines.drain", "C19.replace.extend_replacement_borrow", "C19.cached.extend_map_borrow",
+                   "C19.rope.unchecked.light", "C19.rope.unchecked.same_piece", "C19.rope.unchecked.same_piece_range",
+                   "C19.rope.unchecked.pieces", "C19.rope.unchecked.first_piece_range", "C19.rope.unchecked.last_piece_range"],
+        also_release=False,
+        rule="the rope programs of C16 (including piece-less and empty-piece ropes), the trees of C01 with multi-byte text and wild "
+             "maps; every unsafe site must be reached and its precondition (evaluated by a guarded probe immediately before the "
+             "operation) must hold; non-trivial = a probe site was reached",
+        nontrivial=lambda p: True,
+    ),
     "C20": dict(
         gens=[tlc("c20"), rand("edit_pairs", 500, "quick"), rand("edit_pairs", 30000, "thorough")],
         tv_props=["C20"],
